@@ -5,6 +5,8 @@
 //!         (inputs, exact oracle and generators are shared with C12, see c12.rs)
 //! answer: adm-ok n=<n> panic=<0|1> g=<bits,…> score=<bits,…> conv=<flags>   (exact parts)
 //!         adm-bad <why>                                                     (model only)
+//!
+//! Alternative entry points: `c12::alt` (constructors, `score(p)`, one object reused), see c12.rs.
 use crate::c12::*;
 use crate::out::*;
 use crate::rng::Rng;
@@ -115,6 +117,8 @@ pub fn exec(line: &str) -> (String, String, Option<Result<(), String>>, bool, us
         Some(ex) => (not_overflow(oracle_c13(&inp, ex, &obs)), p > ex.levels[0].1 && p < ex.total),
         None => (None, false),
     };
+    let (o, alt_run) = with_alt(o, &inp, &obs, false);
+    ALT_RUN.store(alt_run, std::sync::atomic::Ordering::Relaxed);
     (full, answer(&obs, true), o, nt, obs.its.len())
 }
 
@@ -190,6 +194,9 @@ pub fn run(cfg: &Cfg) {
         }
         out.stat(&format!("width/{}", Input::parse(c).1.m));
         out.stat(&format!("iterations/{}", n));
+        if ALT_RUN.load(std::sync::atomic::Ordering::Relaxed) {
+            out.stat("alternative-entry-points");
+        }
         if ans.contains("panic=1") {
             out.panics += 1;
         }
